@@ -226,13 +226,23 @@ def isUserHostmask (s : Str) : Bool :=
 
 /-- one pattern character against one hostmask character in the regexp that
 `_hostmaskPatternEqual` builds (compiled with `re.I`): the four rfc1459 pairs are classes, any
-other character is `re.escape`d and compared case-insensitively (ASCII part modelled) -/
+other character is `re.escape`d and compared case-insensitively for ASCII letters only (the
+regexp is compiled with `re.I | re.A`) -/
 def patCharMatch (p c : Char) : Bool :=
   if p == '[' || p == '{' then c == '[' || c == '{'
   else if p == '}' || p == ']' then c == '}' || c == ']'
   else if p == '|' || p == '\\' then c == '|' || c == '\\'
   else if p == '^' || p == '~' then c == '~' || c == '^'
   else asciiLowerChar p == asciiLowerChar c
+
+/-- `ircutils._hostmaskPatternClass`: a canonical representative of the characters a non-wildcard
+pattern character matches (`patCharMatch p c ↔ patClass p = patClass c`, `C04.patCharMatch_eq_cls`) -/
+def patClass (c : Char) : Char :=
+  if c == '[' || c == '{' then '{'
+  else if c == '}' || c == ']' then '}'
+  else if c == '|' || c == '\\' then '|'
+  else if c == '^' || c == '~' then '^'
+  else asciiLowerChar c
 
 /-- `.*` followed by the continuation `k`: `.` does not match LF -/
 def starAux (k : Str → Bool) : Str → Bool
@@ -251,6 +261,26 @@ def glob : Str → Str → Bool
       | c :: cs =>
         if p == '?' then c != '\n' && glob ps cs
         else patCharMatch p c && glob ps cs
+
+/-- last row of the table of `hostmaskPatternsIntersect`: the empty pattern against `q[j:]` -/
+def interRowNil : Str → Bool
+  | [] => true
+  | b :: q => b == '*' && interRowNil q
+
+/-- one row of the table from the row below: `a :: p` against every suffix of `q` -/
+def interRow (a : Char) (below : Str → Bool) : Str → Bool
+  | [] => a == '*' && below []
+  | b :: q =>
+    if a == '*' then below (b :: q) || interRow a below q || below q
+    else if b == '*' then interRow a below q || below (b :: q) || below q
+    else if a == '?' || b == '?' then below q
+    else below q && patClass a == patClass b
+
+/-- `ircutils.hostmaskPatternsIntersect(p, q)`: some string is matched by both patterns
+(dynamic programming over the suffixes; `C04.intersect_complete` / `C04.intersect_sound`) -/
+def intersect : Str → Str → Bool
+  | [] => interRowNil
+  | a :: p => interRow a (intersect p)
 
 /-! ## 5. users, channels, database -/
 
